@@ -82,6 +82,69 @@ func reachExec(fn *ssa.Function, cut map[Edge]bool, decide func(*ssa.If) (int, b
 		exec[*start] = true
 	}
 	visiting := map[*ssa.Phi]bool{}
+	edgeExec := func(b *ssa.BasicBlock, i int) bool {
+		p := b.Preds[i]
+		k := 0
+		for j := 0; j < i; j++ {
+			if b.Preds[j] == p {
+				k++
+			}
+		}
+		for si, s := range p.Succs {
+			if s == b {
+				if k == 0 {
+					return exec[Edge{p, si}]
+				}
+				k--
+			}
+		}
+		return false
+	}
+	visitingNil := map[*ssa.Phi]bool{}
+	// evalNil: cTrue = the value is nil, cFalse = certainly not nil
+	var evalNil func(v ssa.Value, depth int) lat
+	evalNil = func(v ssa.Value, depth int) lat {
+		if depth > 8 {
+			return over
+		}
+		switch x := v.(type) {
+		case *ssa.Const:
+			if x.IsNil() {
+				return cTrue
+			}
+			return over
+		case *ssa.MakeInterface:
+			return cFalse
+		case *ssa.Call:
+			switch CalleeName(x.Common()) {
+			case "errors.New", "fmt.Errorf", "github.com/pkg/errors.New", "github.com/pkg/errors.Errorf":
+				return cFalse
+			}
+			return over
+		case *ssa.Phi:
+			b := x.Block()
+			if start != nil && !reach[b] {
+				return over
+			}
+			if visitingNil[x] {
+				return undef
+			}
+			visitingNil[x] = true
+			defer delete(visitingNil, x)
+			res := undef
+			for i := range b.Preds {
+				if !edgeExec(b, i) {
+					continue
+				}
+				res = meet(res, evalNil(x.Edges[i], depth+1))
+				if res == over {
+					return over
+				}
+			}
+			return res
+		}
+		return over
+	}
 	var eval func(v ssa.Value, depth int) lat
 	eval = func(v ssa.Value, depth int) lat {
 		if depth > 8 {
@@ -106,8 +169,36 @@ func reachExec(fn *ssa.Function, cut map[Edge]bool, decide func(*ssa.If) (int, b
 				case undef:
 					return undef
 				}
+				return over
 			}
-			return over
+		case *ssa.BinOp:
+			// x == nil / x != nil where x is nil or certainly not nil on every executable way in (the error a helper
+			// hands back through a result variable: nil on its good path, errors.New(…) on the others)
+			if x.Op == token.EQL || x.Op == token.NEQ {
+				var other ssa.Value
+				if IsNilConst(x.Y) {
+					other = x.X
+				} else if IsNilConst(x.X) {
+					other = x.Y
+				}
+				if other != nil {
+					switch evalNil(other, depth+1) {
+					case cTrue: // is nil
+						if x.Op == token.EQL {
+							return cTrue
+						}
+						return cFalse
+					case cFalse:
+						if x.Op == token.EQL {
+							return cFalse
+						}
+						return cTrue
+					case undef:
+						return undef
+					}
+					return over
+				}
+			}
 		case *ssa.Phi:
 			res := undef
 			b := x.Block()
@@ -149,6 +240,17 @@ func reachExec(fn *ssa.Function, cut map[Edge]bool, decide func(*ssa.If) (int, b
 				}
 			}
 			return res
+		}
+		// any other boolean value: a rule that forces branch outcomes (decide) is asked as if the value were
+		// branched on — `case a && !b:` of a tagless switch is evaluated as a value (a phi of `false` and `!b`)
+		// and branched on afterwards, while `if a && !b` branches on a and on b
+		if decide != nil {
+			if k, ok := askDecide(decide, v); ok {
+				if k == 0 {
+					return cTrue
+				}
+				return cFalse
+			}
 		}
 		return over
 	}
@@ -195,6 +297,16 @@ func reachExec(fn *ssa.Function, cut map[Edge]bool, decide func(*ssa.If) (int, b
 		}
 	}
 	return reach, exec
+}
+
+// askDecide asks a rule's branch oracle about a boolean value that is not (yet) branched on.
+func askDecide(decide func(*ssa.If) (int, bool), v ssa.Value) (k int, ok bool) {
+	defer func() {
+		if recover() != nil {
+			k, ok = 0, false // the oracle looked at the block of the branch: it has none
+		}
+	}()
+	return decide(&ssa.If{Cond: v})
 }
 
 // PhiValues returns the incoming values of phi along executable edges.
@@ -302,6 +414,30 @@ func ClassifyValue(v ssa.Value) (*Cond, bool) {
 	switch x := v.(type) {
 	case *ssa.BinOp:
 		op := x.Op
+		// const op X.Cmp(Y)  ==  X.Cmp(Y) op' const
+		if _, isCall := x.Y.(*ssa.Call); isCall {
+			if _, isK := ConstInt(x.X); isK {
+				flip := map[token.Token]token.Token{token.EQL: token.EQL, token.NEQ: token.NEQ, token.LSS: token.GTR, token.GTR: token.LSS, token.LEQ: token.GEQ, token.GEQ: token.LEQ}
+				if f, ok := flip[op]; ok {
+					x = &ssa.BinOp{Op: f, X: x.Y, Y: x.X}
+					op = f
+				}
+			}
+		}
+		// bytes.Compare(a, b) ==/!= 0 (any spelling that singles out 0) is bytes.Equal(a, b)
+		if call, ok := x.X.(*ssa.Call); ok && CalleeName(call.Common()) == "bytes.Compare" {
+			if k, ok := ConstInt(x.Y); ok {
+				rel := cmpRel(op, k)
+				if rel == "==" || rel == "!=" {
+					eq := rel == "=="
+					if neg {
+						eq = !eq
+					}
+					c.Kind, c.X, c.Y, c.TrueIsEqual = "bytes.Equal", call.Call.Args[0], call.Call.Args[1], eq
+					return c, true
+				}
+			}
+		}
 		// X.Cmp(Y) op const
 		if call, ok := x.X.(*ssa.Call); ok && CalleeName(call.Common()) == "(*math/big.Int).Cmp" {
 			if k, ok := ConstInt(x.Y); ok {
